@@ -146,6 +146,47 @@ def run(ctx):
     ctx.check(fams == ["v4", "v6"], "C14.4", "Hosts::serialise:families", "looks the name up in v4 and in v6", "serialiser looks up %s" % fams, hs.loc())
     wr = [t for b, t in hs.calls() if (t.get("callee") or "").endswith("fmt::Write::write_fmt")]
     ctx.check(len(wr) == 2, "C14.4", "Hosts::serialise:lines", "one output line per present family", "%d formatted writes" % len(wr), hs.loc())
+    # the names written are the keys of both maps
+    key_fams = set()
+    sets_ = set()
+    for b, t in A.call_blocks(hs, A.name_endswith("HashSet::<T, S, A>::insert")):
+        e = hsr.call_expr(t, b)
+        sets_.add(A.show(A.strip_refs(e[2][0])))
+        for x in A.walk(e[2][1]):
+            if x[0] == "call" and x[1].endswith("HashMap::<K, V, S, A>::keys"):
+                key_fams.add(A.last_field(x[2][0]))
+    coll = [hsr.call_expr(t, b) for b, t in A.call_blocks(hs, A.name_endswith("Iterator::collect"))]
+    same_set = len(sets_) == 1 and len(coll) == 1 and any(A.show(A.strip_refs(x)) in sets_ for x in A.walk(coll[0]) if x[0] == "call")
+    ctx.check(key_fams == {"v4", "v6"} and same_set, "C14.4", "Hosts::serialise:names", "the names written are the union of the v4 and v6 keys",
+              "names collected from the keys of %s (one set: %s)" % (sorted(key_fams), same_set), hs.loc())
+    hsc = A.Conds(hs, hsr)
+    seen_f = set()
+    for b, t in hs.calls():
+        if not (t.get("callee") or "").endswith("fmt::Write::write_fmt"):
+            continue
+        e = hsr.call_expr(t, b)
+        fa = A.peel(e[2][1])
+        tmpl = (A.peel(fa[2][0])[3] or {}).get("bytes") if fa[0] == "call" and "Arguments" in fa[1] else None
+        args = A.peel(fa[2][1]) if tmpl else None
+        fams_here = []
+        if args is not None and args[0] == "array":
+            for a in args[1]:
+                fams_here.append({A.last_field(x[2][0]) for x in A.walk(a) if x[0] == "call" and x[1].endswith("HashMap::<K, V, S, A>::get")})
+        own = fams_here[0] if fams_here else set()
+        fam = sorted(own)[0] if len(own) == 1 else "?"
+        seen_f.add(fam)
+        ok_fmt = tmpl == [0xC0, 1, 0x20, 0xC0, 1, 0x0A, 0] and len(fams_here) == 2 and len(own) == 1 and not fams_here[1]
+        ctx.check(ok_fmt, "C14.4", "Hosts::serialise:line:%s" % fam, "line = `{address of this family} {name}\\n`",
+                  "line template %s with argument families %s" % (tmpl, fams_here), hs.loc(b))
+        dep = set()
+        for fc in hsc.facts_on_all_paths(b):
+            if fc[0] in ("is", "isnot") and isinstance(fc[2], tuple):
+                for x in A.walk(fc[2]):
+                    if x[0] == "call" and x[1].endswith("HashMap::<K, V, S, A>::get"):
+                        dep.add(A.last_field(x[2][0]))
+        ctx.check(dep == own, "C14.4", "Hosts::serialise:independent:%s" % fam, "the %s line is written iff the %s lookup hit - whatever the other family holds" % (fam, fam),
+                  "whether the %s line is written depends on the lookups in %s (a name with both families loses one mapping)" % (fam, sorted(dep)), hs.loc(b))
+    ctx.check(seen_f == {"v4", "v6"}, "C14.4", "Hosts::serialise:both-families", "a line for v4 and a line for v6", "lines written for %s" % sorted(seen_f), hs.loc())
     pops = A.call_blocks(hs, A.name_endswith("String::pop"))
     roots = A.call_blocks(hs, A.name_is(T + "DomainName::is_root"))
     ctx.check(len(pops) == 1 and len(roots) == 1, "C14.4", "Hosts::serialise:name-form", "name printed without the trailing dot, the root as '.'",
